@@ -16,13 +16,20 @@ def spec(tier):
                 cfg = dict(algo=algo, pools=pools, oc=oc, multi=multi, duration=10, pipes=pipes)
                 sym = dict(cpus=I(1, 6), ma=I(1, 9), mb=I(1, 9))
                 obs.append(CH(name=f"ids_{algo}_{'multi' if multi else 'single'}_{mode}", harness="rsim.id_independence", sym=sym,
-                              fixed=dict(cfg=cfg, mode=mode, cstart=7, ram=8 if oc else 30, da=2), timeout=1500))
+                              fixed=dict(cfg=cfg, mode=mode, cstart=7, ram=8 if oc else 30, da=2), timeout=1500, native_points=6))
+    # the process-wide container counter: same identifiers, symbolic starting value of the counter (ids such as c9/c10
+    # straddle a digit boundary for some values), overcommitted pool with possibly tied OOM scores
+    cfgc = dict(algo="overbook", pools=1, oc=True, multi=False, duration=8,
+                pipes=[pipe("fanout3", prio=3, at=0, durs=[1, 3, 3], mems=[1, "ma", "mb"]), pipe("tworoots2", prio=2, at=1, durs=[3, 3], mems=["ma", "mb"])])
+    for (lo, hi) in ((2, 4), (5, 7), (8, 9), (10, 11)):
+        obs.append(CH(name=f"ids_overbook_counter_{lo}", harness="rsim.id_independence", sym=dict(cstart=I(lo, hi), ma=I(1, 6), mb=I(1, 6)),
+                      fixed=dict(cfg=cfgc, mode="asc", cpus=6, ram=8, da=1), timeout=1500, native_points=4))
     # same run before and after an unrelated simulation in the same process
     for algo, pools, oc in algos:
         cfg = dict(algo=algo, pools=pools, oc=oc, multi=True, duration=8, pipes=pipes[:2])
         other = dict(algo="priority", pools=1, multi=True, duration=6, pipes=[pipe("chain3", prio=1, at=0, durs=[1, 1, 1]), pipe("single", prio=3, at=1, durs=[3])])
         obs.append(CH(name=f"back_to_back_{algo}", harness="rsim.back_to_back", sym=dict(cpus=I(1, 6), ma=I(1, 9)),
-                      fixed=dict(cfg=cfg, other=other, ram=8 if oc else 30, da=1, mb=3), timeout=1200))
+                      fixed=dict(cfg=cfg, other=other, ram=8 if oc else 30, da=1, mb=3), timeout=1200, native_points=4))
     # the generated workload depends only on workload parameters, tick rate and seed
     for seed in ((1, 7, 42) if th else (7,)):
         for tps in (1, 10):
